@@ -205,6 +205,7 @@ PROPS = {
         'ext': [], 'corr': [],
         'needs_syn_generality': True,
         'extra': c18_extra, 'extra_always': True,
+        'bonus': ['Props/Pipeline', 'Props/PipelineEx'],
         'replay_kind': 'kbd',
         'exhaustive': True,
     },
